@@ -282,8 +282,27 @@ func c11Grammar(r *rand.Rand, name string, opts rx.LexOpts, simple bool, band in
 		var kws []rx.LexRule
 		seen := map[string]bool{}
 		want := 2 + r.Intn(4)
+		// under case folding two keywords that differ in case only would be identical rules
+		canon := func(w string) string {
+			if !m.Fold {
+				return w
+			}
+			var sb strings.Builder
+			for _, c := range w {
+				o := rx.Orbit(c, m.Bytes)
+				lo := o[0]
+				for _, x := range o {
+					if x < lo {
+						lo = x
+					}
+				}
+				sb.WriteRune(lo)
+			}
+			return sb.String()
+		}
+		constants := 0
 		for _, w := range cands {
-			if len(kws) >= want || seen[w] || strings.ContainsAny(w, "\n\r/\\ ") {
+			if len(kws) >= want || seen[canon(w)] || strings.ContainsAny(w, "\n\r/\\ ") {
 				continue
 			}
 			ok := true
@@ -295,13 +314,24 @@ func c11Grammar(r *rand.Rand, name string, opts rx.LexOpts, simple bool, band in
 			if !ok || !c11Fits(cre, w, m, g.Defs) {
 				continue
 			}
-			seen[w] = true
+			seen[canon(w)] = true
 			kw := rx.LexRule{Token: b.tok("kw"), RE: rx.Lit(w), Switch: -1, SCs: class.SCs}
 			if _, constant, _ := rx.ConstantValue(kw.RE, m, m.Fold, g.Defs); !constant {
 				// case-insensitive letters: not a specialisation, needs to outrank the class
 				kw.HasPrio, kw.Prio = true, class.Prio+1
+			} else {
+				constants++
 			}
 			kws = append(kws, kw)
+		}
+		if constants == 0 {
+			// a class rule needs at least one specialisation: words without letters stay constant under folding
+			for _, w := range []string{"_", "_1", "42", "0", "7_"} {
+				if !seen[w] && c11Fits(cre, w, m, g.Defs) {
+					kws = append(kws, rx.LexRule{Token: b.tok("kw"), RE: rx.Lit(w), Switch: -1, SCs: class.SCs})
+					break
+				}
+			}
 		}
 		classFirst := r.Intn(2) == 0
 		if classFirst {
@@ -660,7 +690,7 @@ func c11Compare(c *fw.Ctx, u *c11Unit, text string, want []rx.LexTok, tr *genrun
 
 // c11SimpleFallback is used when no random grammar for an option vector compiled.
 func c11Build(c *fw.Ctx, r *rand.Rand, name string, opts rx.LexOpts, band int) *c11Unit {
-	for try := 0; try < 14; try++ {
+	for try := 0; try < 24; try++ {
 		simple := try >= 8
 		g := c11Grammar(r, name, opts, simple, band)
 		model := rx.NewLexModel(g)
